@@ -145,7 +145,7 @@ def run_events(item: Dict[str, Any], work: Path, out_path: Path) -> Dict[str, An
         gens = []
         for k, part in enumerate((item.get("mix") or "builtin").split("+")):
             if part == "adv":
-                gens.append(adv.Adversary(seed * 7 + k, label=f"Adversary{k}", p_instr=0.3))
+                gens.append(adv.Adversary(seed * 7 + k, label=f"Adversary{k}", p_instr=item.get("p_instr", 0.3), kinds=item.get("kinds")))
             else:
                 from nrel.hive.dispatcher.instruction_generator.charging_fleet_manager import ChargingFleetManager
                 from nrel.hive.dispatcher.instruction_generator.dispatcher import Dispatcher
